@@ -244,6 +244,11 @@ func (h *Handler) HandleReadFile(ctx *Context, limit uint32, offset uint64, wr s
 		return fmt.Errorf("stat failed: %w", err)
 	}
 
+	// a directory can be opened but not read, and its size says nothing: fail before anything is announced
+	if stat.IsDir() {
+		return fmt.Errorf("read failed: %s is a directory", stat.Name())
+	}
+
 	n := min(int64(limit), max(stat.Size()-int64(offset), 0))
 
 	log.DebugContext(ctx, "Read file", slog.Int64("read", n))
